@@ -2500,4 +2500,190 @@ theorem transformVertices_no_panic' {fV : V → V} {fN : N → N} {s : Mesh V N}
   unfold WF at this ⊢
   exact this
 
+/-! ## `DELETE_BAD_TOPOLOGY_TRIANGLES` stays enforced -/
+
+/-- the index buffer is left untouched by `delete_bad_topology_triangles` started with the half-edge set `S` -/
+def GoodWrt : List (Nat × Nat) → List Tri → Prop
+  | _, [] => True
+  | S, t :: ts => isDegenerate t = false ∧
+      (S.contains (t.a, t.b) || S.contains (t.b, t.c) || S.contains (t.c, t.a)) = false ∧
+      GoodWrt ((t.c, t.a) :: (t.b, t.c) :: (t.a, t.b) :: S) ts
+
+theorem deleteBadLoop_length_le (idx : List Tri) (S : List (Nat × Nat)) : (deleteBadLoop idx S).length ≤ idx.length :=
+  (deleteBadLoop_sublist idx S).length_le
+
+theorem deleteBadLoop_fix_iff (idx : List Tri) (S : List (Nat × Nat)) : deleteBadLoop idx S = idx ↔ GoodWrt S idx := by
+  induction idx generalizing S with
+  | nil => simp [deleteBadLoop, GoodWrt]
+  | cons t ts ih =>
+    rw [deleteBadLoop_cons]
+    unfold GoodWrt
+    by_cases hdeg : isDegenerate t = true
+    · simp only [hdeg, if_true]
+      constructor
+      · intro h
+        have := deleteBadLoop_length_le ts S
+        rw [h] at this; simp only [List.length_cons] at this; omega
+      · intro h; simp at h
+    · have hdeg' : isDegenerate t = false := by simpa using hdeg
+      by_cases hhit : (S.contains (t.a, t.b) || S.contains (t.b, t.c) || S.contains (t.c, t.a)) = true
+      · simp only [hdeg', hhit, if_true, Bool.false_eq_true, if_false]
+        constructor
+        · intro h
+          have := deleteBadLoop_length_le ts S
+          rw [h] at this; simp only [List.length_cons] at this; omega
+        · intro h; simp at h
+      · have hhit0 : (S.contains (t.a, t.b) || S.contains (t.b, t.c) || S.contains (t.c, t.a)) = false := by simpa using hhit
+        simp only [hdeg', hhit0, Bool.false_eq_true, if_false, true_and, List.cons.injEq]
+        exact ih _
+
+theorem goodWrt_congr (idx : List Tri) (S S' : List (Nat × Nat)) (h : ∀ e, S.contains e = S'.contains e) :
+    GoodWrt S idx → GoodWrt S' idx := by
+  induction idx generalizing S S' with
+  | nil => intro _; trivial
+  | cons t ts ih =>
+    unfold GoodWrt
+    intro ⟨h1, h2, h3⟩
+    refine ⟨h1, by rw [← h, ← h, ← h]; exact h2, ?_⟩
+    apply ih _ _ _ h3
+    intro e
+    simp only [List.contains_cons, h e]
+
+def swapE (e : Nat × Nat) : Nat × Nat := (e.2, e.1)
+
+theorem contains_map_swapE (S : List (Nat × Nat)) (e : Nat × Nat) : (S.map swapE).contains (swapE e) = S.contains e := by
+  induction S with
+  | nil => rfl
+  | cons x xs ih =>
+    simp only [List.map_cons, List.contains_cons, ih]
+    congr 1
+    obtain ⟨x1, x2⟩ := x; obtain ⟨e1, e2⟩ := e
+    simp only [swapE]
+    by_cases h : e1 = x1 ∧ e2 = x2
+    · obtain ⟨rfl, rfl⟩ := h; simp
+    · have h1 : ((e1, e2) == (x1, x2)) = false := by
+        simp only [beq_eq_false_iff_ne, ne_eq, Prod.mk.injEq]; exact h
+      have h2 : ((e2, e1) == (x2, x1)) = false := by
+        simp only [beq_eq_false_iff_ne, ne_eq, Prod.mk.injEq]; exact fun hh => h ⟨hh.2, hh.1⟩
+      rw [h1, h2]
+
+theorem goodWrt_rev (idx : List Tri) (S : List (Nat × Nat)) (h : GoodWrt S idx) : GoodWrt (S.map swapE) (revIdx idx) := by
+  induction idx generalizing S with
+  | nil => trivial
+  | cons t ts ih =>
+    unfold GoodWrt at h
+    obtain ⟨h1, h2, h3⟩ := h
+    have hr : revIdx (t :: ts) = ⟨t.b, t.a, t.c⟩ :: revIdx ts := rfl
+    rw [hr]
+    unfold GoodWrt
+    simp only [Bool.or_eq_false_iff] at h2
+    obtain ⟨⟨ha, hb⟩, hc⟩ := h2
+    refine ⟨?_, ?_, ?_⟩
+    · simp only [isDegenerate, Bool.or_eq_false_iff, beq_eq_false_iff_ne, ne_eq] at h1 ⊢
+      obtain ⟨⟨x, y⟩, z⟩ := h1
+      exact ⟨⟨fun h => x h.symm, z⟩, y⟩
+    · have e1 := contains_map_swapE S (t.a, t.b)
+      have e2 := contains_map_swapE S (t.c, t.a)
+      have e3 := contains_map_swapE S (t.b, t.c)
+      simp only [swapE] at e1 e2 e3
+      simp only [e1, e2, e3, ha, hb, hc, Bool.or_self]
+    · have := ih _ h3
+      apply goodWrt_congr _ _ _ _ this
+      intro e
+      simp only [List.map_cons, swapE, List.contains_cons]
+      cases (e == (t.a, t.c)) <;> cases (e == (t.c, t.b)) <;> cases (e == (t.b, t.a)) <;> simp
+
+/-- reversing the triangles does not create a bad-topology triangle -/
+theorem deleteBad_rev {idx : List Tri} (h : deleteBad idx = idx) : deleteBad (revIdx idx) = revIdx idx := by
+  unfold deleteBad at h ⊢
+  rw [deleteBadLoop_fix_iff] at h ⊢
+  exact goodWrt_rev idx [] h
+
+/-- the promise of `DELETE_BAD_TOPOLOGY_TRIANGLES` about the index buffer -/
+def CleanBad (s : Mesh V N) : Prop := s.flags.delBad = true → deleteBad s.indices = s.indices
+
+theorem setFlags_cleanBad' [Geo V N] {dim3 : Bool} {s s' : Mesh V N} {f : Flags} {r : Option TopoErr}
+    (hc : CleanBad s) (h : setFlags dim3 s f = some (s', r)) : CleanBad s' := by
+  have hf := setFlags_flags h
+  unfold CleanBad
+  rw [hf]
+  intro hdel
+  unfold setFlags at h
+  simp only [Option.bind_eq_some_iff] at h
+  obtain ⟨⟨t1, d1⟩, h1, ⟨t2, r2, d2⟩, h2, t3, h3, t4, h4, t5, h5, h6⟩ := h
+  simp only [Option.some.injEq, Prod.mk.injEq] at h6
+  obtain ⟨rfl, _⟩ := h6
+  have b3 : t3.indices = t2.indices := by
+    unfold ccStage at h3
+    split at h3
+    · exact (ccStep_spec h3).2.1
+    · cases h3; rfl
+  have b4 : t4.indices = t3.indices := by
+    unfold pnStage at h4
+    split at h4
+    · exact (pnStep_spec h4).2.1
+    · cases h4; rfl
+  have b5 : t5.indices = t4.indices := (qbvhStage_spec h5).1.2.1
+  simp only
+  rw [b5, b4, b3]
+  unfold topoStage at h2
+  split at h2
+  · -- the topology stage ran with deletion
+    simp only [Option.map_eq_some_iff, Prod.mk.injEq] at h2
+    obtain ⟨⟨s2, r'⟩, hm, rfl, _, _⟩ := h2
+    have := (topoStep_spec hm).2.1
+    simp only [hdel, if_true] at this
+    simp only
+    rw [this, deleteBad_idem]
+  · rename_i hd
+    cases h2
+    -- no topology stage: then no merge stage either, the flag was already there and the indices are the old ones
+    unfold mergeStage at h1
+    split at h1
+    · simp only [Option.map_eq_some_iff, Prod.mk.injEq] at h1
+      obtain ⟨_, _, _, rfl⟩ := h1
+      exfalso; apply hd; simp [Flags.topoFamily, hdel]
+    · cases h1
+      simp only [dropStage_indices]
+      apply hc
+      -- `delBad` is in `f` but not in the difference
+      cases hs : s.flags.delBad
+      · exfalso; apply hd; simp [Flags.topoFamily, Flags.diff, hdel, hs]
+      · rfl
+
+theorem reverse_cleanBad' [Geo V N] {dim3 : Bool} {s s' : Mesh V N} (hc : CleanBad s) (h : reverse dim3 s = some s') : CleanBad s' := by
+  obtain ⟨_, hi, _⟩ := reverse_spec_buffers h
+  have hf : s'.flags = s.flags := by
+    unfold reverse at h
+    have key : ∀ s2 : Mesh V N, retopo s2 = some s' → s'.flags = s2.flags := by
+      intro s2 h2
+      unfold retopo at h2
+      split at h2
+      · split at h2
+        · cases h2
+        · rename_i s3 r hts
+          cases h2
+          exact (topoStep_spec hts).2.2.2.2.1
+      · cases h2; rfl
+    have := key _ h
+    cases dim3 <;> exact this
+  unfold CleanBad at hc ⊢
+  rw [hf, hi]
+  intro hd
+  exact deleteBad_rev (hc hd)
+
+theorem withFlags_cleanBad' [Geo V N] {dim3 : Bool} {vs : List V} {idx : List Tri} {f : Flags} {s : Mesh V N}
+    (h : withFlags dim3 vs idx f = .ok s) : CleanBad s := by
+  obtain ⟨s1, r, hs, he⟩ := buildCore_eq_some (withFlags_eq_ok h).2
+  obtain ⟨⟨_, ei, _⟩, ef, _⟩ := ensureQbvh_spec he
+  have h1 : CleanBad s1 := setFlags_cleanBad' (s := blank vs idx) (by intro hd; cases hd) hs
+  unfold CleanBad at h1 ⊢
+  rw [ef, ei]; exact h1
+
+theorem transformVertices_cleanBad' {fV : V → V} {fN : N → N} {s s' : Mesh V N} (hc : CleanBad s)
+    (h : transformVertices fV fN s = some s') : CleanBad s' := by
+  obtain ⟨_, ei, ef, _⟩ := transformVertices_spec h
+  unfold CleanBad at hc ⊢
+  rw [ef, ei]; exact hc
+
 end C11
